@@ -1,7 +1,9 @@
 package main
 
 import (
+	"go/types"
 	"sort"
+	"strings"
 
 	"golang.org/x/tools/go/callgraph"
 	"golang.org/x/tools/go/ssa"
@@ -17,6 +19,7 @@ type modGraph struct {
 
 func buildModGraph(p *Program, cg *callgraph.Graph, dropOutEdgesOf map[*ssa.Function]bool) *modGraph {
 	g := &modGraph{succ: map[*ssa.Function]map[*ssa.Function][]ssa.CallInstruction{}}
+	chaAdded := map[ssa.CallInstruction]bool{}
 	for fn, node := range cg.Nodes {
 		if fn == nil || !inModule(fn) {
 			continue
@@ -30,6 +33,46 @@ func buildModGraph(p *Program, cg *callgraph.Graph, dropOutEdgesOf map[*ssa.Func
 			if cal == nil || !inModule(cal) {
 				continue
 			}
+			if g.succ[fn] == nil {
+				g.succ[fn] = map[*ssa.Function][]ssa.CallInstruction{}
+			}
+			g.succ[fn][cal] = append(g.succ[fn][cal], e.Site)
+		}
+	}
+	// Invokes on interfaces declared in the module (Session, command, NumSet…)
+	// that VTA could not resolve to any module implementation fall back to CHA:
+	// the session value reaches Conn through the user-supplied NewSession
+	// callback, which VTA does not follow through the copied Options struct.
+	chaG := p.CHA()
+	for fn, node := range chaG.Nodes {
+		if fn == nil || !inModule(fn) || dropOutEdgesOf[fn] {
+			continue
+		}
+		for _, e := range node.Out {
+			if e.Site == nil || !e.Site.Common().IsInvoke() {
+				continue
+			}
+			cal := e.Callee.Func
+			if cal == nil || !inModule(cal) {
+				continue
+			}
+			it, ok := e.Site.Common().Value.Type().(*types.Named)
+			if !ok || it.Obj().Pkg() == nil || !strings.HasPrefix(it.Obj().Pkg().Path(), modPath) {
+				continue
+			}
+			// already resolved by VTA?
+			resolved := false
+			for _, sites := range g.succ[fn] {
+				for _, s := range sites {
+					if s == e.Site {
+						resolved = true
+					}
+				}
+			}
+			if resolved && !chaAdded[e.Site] {
+				continue
+			}
+			chaAdded[e.Site] = true
 			if g.succ[fn] == nil {
 				g.succ[fn] = map[*ssa.Function][]ssa.CallInstruction{}
 			}
